@@ -53,6 +53,7 @@ const (
 func (c14) Rule() string {
 	return "Case kinds by index. (a) idx 0,1 = loader request rule ENUMERATED on hand-built plans (the planner gives every mutation root field its own fetch, so generated operations never yield a mutation request with several root fields): one fetch with 1..3 root fields of Query (idx 0) / Mutation (idx 1) x every subset protected x every decision function over it x nullable / non-null fields x {per-field Authorizer, up-front BatchAuthorizer, both}, run through the real post-processor (coordinate collection) and the real Resolver/Loader (alternating ResolveGraphQLResponse / ArenaResolveGraphQLResponse) with a recording data source. " +
 		"(b) all other indices = generated federation layout (as C01: 2-3 subgraphs, entities with keys, @requires, @provides, @shareable, interfaces/unions over entities, mutations) x a set P of protected coordinates configured as plan.FieldConfiguration.HasAuthorizationRule (all coordinates, or a seeded half) x " + fmt.Sprint(opsPerCase) + " valid operations (fragments on abstract types, aliases, duplicates, @skip/@include, variables; every third a mutation when the layout has them) x decision functions d: P -> {allow,deny}: EVERY function over the protected coordinate families the operation touches when there are <= " + fmt.Sprint(exhaustiveUpTo) + " of them, else all-allow, all-deny and " + fmt.Sprint(seededDecisions) + " generated ones (single touched family, seeded halves/quarters, all-but-one, exactly the entity-fetched fields, exactly the fields fetched only as @requires/@key inputs, only non-null fields, only root fields, only leaves, only composites, only keys) x authorizer modes {per-field resolve.Authorizer, up-front resolve.BatchAuthorizer, and (1 in 4) both}; idx%8 in {3,6}: P is an arbitrary set of OBJECT-type coordinates (every coordinate decided on its own, interface coordinates unprotected, operations never select a field on an interface, so the static and the runtime parent type of every position coincide); idx%8 = 7: @defer queries (every frame is merged by the incremental-delivery rules); else P and d are closed over interface families (Interface.f and every Implementer.f protected and decided alike). Executed by a real ExecutionEngine over in-process semantic subgraphs on a hash-defined universe whose String/ID values embed 'Type.field#' tags. " +
+		"(c) idx%32 = 5: SUBSCRIPTION UPDATES: generated GraphQLSubscription plans (Subscription.ev: Event with leaf fields, an Item object and optionally a list of Items; nullability of every level seeded; aliases) shaped as planner output and run through the real post-processor (trigger appended to the fetch tree, protected coordinates collected), in two shapes - served by the trigger alone, or with an entity-style fetch to a second data source after every event - driven through Resolver.AsyncResolveGraphQLSubscription with a source emitting " + fmt.Sprint(subEvents) + " events and a recording writer; P = all selected coordinates or a seeded half, every decision function when <= " + fmt.Sprint(exhaustiveUpTo) + " protected coordinates (else all-allow, all-deny, every single one, 4 seeded halves) x the three authorizer modes; EVERY update is judged with oracles 1-4 against the reference execution of the selection over that event's data; request rule: with a denied subscription root field the source must not be started (up-front modes), the per-event fetch must not be sent when its root field is denied. " +
 		"Ground truth: the coordinate of every response position comes from the provenance of the monolithic reference execution (independent parser/executor), never from the plan; the expected response is the reference execution with denied coordinates failing (error + null + spec null propagation); the root fields of a subgraph request are parsed from the recorded request text (fields of Query/Mutation, or of the entity fragments of _entities). " +
 		"Oracles per execution: (1) no non-null value at a position whose coordinate is denied (initial response and merged deferred payloads); (2) data equals the expected data (null propagation like any other null; fields computed by @requires from a denied input, and fields fetched in the same entity request as such a field, may additionally be null and the value of such a computed field is not compared - counted; with @defer instead: no incremental payload addresses a position that is null or absent in the result delivered so far); (3) every denied position the reference visits has an error with exactly its path, or lies in a region nulled by propagation (or in a deferred fragment completed with errors) that contains a reported denial; (4) no tag of a denied coordinate in any byte written (tags inside an allowed @requires-derived value are counted apart); (5) up-front modes: no recorded subgraph request whose root fields are all denied, no mutation request with any denied root field. Operations whose authorizer-free run differs from the reference are left to C01 (counted). Non-trivial = an execution with >= 1 denied response position or >= 1 suppressed subgraph request; distinct by hash of (layout, P, operation, variables, decision, mode)."
 }
@@ -62,7 +63,7 @@ func (c14) Assumptions() []string {
 		"decision functions are data-independent functions of the coordinate (the engine memoises decisions per data source + coordinate by design)",
 		"where a field can be selected through an interface, P and d are closed over the interface family (what composition emits), so the verdict does not depend on whether the engine keys a decision by the static or the runtime parent type; arbitrary (unclosed) sets of object-type coordinates are exercised only with operations that never select a field on an interface",
 		"the per-field authorizer answers AuthorizePreFetch and AuthorizeObjectField from the same function d",
-		"covered: the only response of queries and mutations, the initial response and every incremental payload of @defer queries; subscription updates are not driven by this check",
+		"covered: the only response of queries and mutations, the initial response and every incremental payload of @defer queries, every update of subscriptions on generated plans at the resolver level (the federation rig has no subscriptions: planner-produced subscription plans, websocket/SSE transports and subscription filters are not driven); the statement does not promise delivery, so a missing update is counted, not judged",
 		"the request rule is judged in the up-front modes only (the statement states it for up-front authorization); in per-field mode requests with denied root fields are only counted",
 		"fields computed by @requires from a denied input (and fields fetched by the same entity request) are outside the statement: they may be null, or computed from whatever input the subgraph received; counted",
 		"operations with a union-typed fragment inside a non-union parent (C01-F1) are not generated; operations the gateway already answers differently from the reference without any authorizer (C01 findings) are skipped and counted",
@@ -72,7 +73,7 @@ func (c14) Assumptions() []string {
 }
 
 func (c14) RequiredCounters(string) []string {
-	return []string{"layouts", "operations", "executions_field_mode", "executions_prefetch_mode", "executions_both_mode", "denied_positions_checked", "denial_errors_matched", "denied_positions_swallowed_by_reported_denial", "sentinel_tags_searched", "requests_rule_checked", "mutation_requests_rule_checked", "requests_suppressed", "exhaustive_decision_spaces", "seeded_decision_spaces", "hidden_coordinate_denied_runs", "mutation_executions", "responses_compared", "loader_rule_executions", "loader_rule_mutation_partially_denied", "cases_closed", "cases_concrete", "cases_defer", "deferred_executions", "incremental_frames_observed", "response_positions_checked", "batch_authorizer_calls", "authorizer_object_field_calls"}
+	return []string{"layouts", "operations", "executions_field_mode", "executions_prefetch_mode", "executions_both_mode", "denied_positions_checked", "denial_errors_matched", "denied_positions_swallowed_by_reported_denial", "sentinel_tags_searched", "requests_rule_checked", "mutation_requests_rule_checked", "requests_suppressed", "exhaustive_decision_spaces", "seeded_decision_spaces", "hidden_coordinate_denied_runs", "mutation_executions", "responses_compared", "loader_rule_executions", "loader_rule_mutation_partially_denied", "cases_closed", "cases_concrete", "cases_defer", "cases_subscription", "subscription_updates_judged", "subscription_executions_served_by_trigger_alone", "subscription_executions_with_per_event_fetch", "subscription_triggers_not_started", "subscription_per_event_fetches_suppressed", "deferred_executions", "incremental_frames_observed", "response_positions_checked", "batch_authorizer_calls", "authorizer_object_field_calls"}
 }
 
 // ---------------------------------------------------------------------------------------------
@@ -173,6 +174,9 @@ func (e *caseEnv) denied(d *decision, coord string) bool {
 
 // requiresDeniedInput: coord is computed (@requires) from a sibling field whose coordinate is denied.
 func (e *caseEnv) requiresDeniedInput(d *decision, coord string) bool {
+	if e.l == nil {
+		return false
+	}
 	fi := e.l.Fields[coord]
 	if fi == nil || fi.Requires == "" {
 		return false
@@ -473,6 +477,7 @@ type opCase struct {
 	cv       map[string]any
 	root     *ref.Obj
 	mutation bool
+	resolver ref.FieldResolver   // data of the reference execution (nil = the layout's reference resolver)
 	deferred bool                // the operation uses @defer: frames are merged, data equality is not demanded
 	A        map[string]any      // all-allow reference data
 	prov     map[string]ref.Prov // provenance of every field position of A
@@ -534,6 +539,7 @@ func staticCoordsOf(sels gast.SelectionSet, out map[string]bool, seen map[string
 }
 
 // case kinds by index: 0,1 = enumerated hand-built plans (loader request rule); then by idx%8:
+// idx%32 = 5: subscription updates on generated subscription plans (sub.go);
 // 3,6 = unclosed P over object-type coordinates (fields never selected through an interface);
 // 7 = @defer queries; the rest = P closed over interface families.
 func caseKind(idx int) string {
@@ -542,6 +548,9 @@ func caseKind(idx int) string {
 		return "rule-query"
 	case idx == 1:
 		return "rule-mutation"
+	}
+	if idx%32 == 5 {
+		return "subscription"
 	}
 	switch idx % 8 {
 	case 3, 6:
@@ -559,6 +568,8 @@ func (p c14) Run(c *fw.Ctx, idx int) fw.Result {
 		return p.runLoaderRule(c, idx, false)
 	case "rule-mutation":
 		return p.runLoaderRule(c, idx, true)
+	case "subscription":
+		return p.runSubscriptions(c, idx)
 	}
 	res := fw.Result{}
 	res.Count("cases_"+kind, 1)
@@ -1115,7 +1126,11 @@ func firstDiff(a, b string) string {
 // expected runs the reference with denied coordinates failing; extraFail lists positions
 // (PathKey) that fail in addition.
 func (c14) expected(env *caseEnv, oc *opCase, d *decision, extraFail map[string]bool) (map[string]any, []ref.ExecError) {
-	ex := &ref.Executor{Schema: env.super, Resolver: fed.NewReferenceResolver(env.l, env.u), Vars: oc.cv}
+	var rs ref.FieldResolver = oc.resolver
+	if rs == nil {
+		rs = fed.NewReferenceResolver(env.l, env.u)
+	}
+	ex := &ref.Executor{Schema: env.super, Resolver: rs, Vars: oc.cv}
 	ex.OnField = func(obj *ref.Obj, fd *gast.FieldDefinition, _ map[string]any, path []any) error {
 		coord := obj.Type + "." + fd.Name
 		if env.denied(d, coord) {
